@@ -829,6 +829,17 @@ def gen_C09(rng, tier):
 def gen_C10(rng, tier):
     out = []
     fmt_ns = [1, 2, 3, 10, 100, 10 ** 6]
+    # directed: one bucket spanning most of the u64 range (small and huge timestamps mixed)
+    for p in [4, 0]:
+        h = Hist(p)
+        h.new()
+        for t in [1000, 1001, 1002, 2000, 0xC000000000000100, 0xD000000000000200, 0xD000000000000201, U64 - 1, U64]:
+            h.push(t, rng)
+        if marker_free(p, h.ts):
+            for n in range(1, 13):
+                h.op(f"read_n n={n} s=U e=U")
+                h.op(f"read_n n={n} s=I:1001 e=E:{U64}")
+            out.append((f"mixed-magnitude-p{p}", h.script()))
     nh = 10 if tier == "quick" else 120
     for i in range(nh):
         p = PAYLOADS_SMALL[i % len(PAYLOADS_SMALL)]
@@ -903,10 +914,16 @@ def gen_C16(rng, tier):
 
 def gen_C17(rng, tier):
     out = []
-    for i in range(10 if tier == "quick" else 60):
-        p = rng.choice([0, 1, 2, 4, 8, 100, 12345])
-        mx = max_user_header(p)
-        ul = rng.choice([0, 1, 2, 17, 300, mx - 1, mx, mx + 1, mx + 2, 70000])
+    directed = [(p, d) for p in (8, 0, 12345) for d in (-1, 0, 1, 2)]
+    for i in range(len(directed) + (6 if tier == "quick" else 60)):
+        if i < len(directed):
+            p = directed[i][0]
+            mx = max_user_header(p)
+            ul = mx + directed[i][1]          # around the 16-bit limit of the declared header length
+        else:
+            p = rng.choice([0, 1, 2, 4, 8, 100, 12345])
+            mx = max_user_header(p)
+            ul = rng.choice([0, 1, 2, 17, 300, mx - 1, mx, mx + 1, mx + 2, 70000])
         hdr = bytes(rng.randrange(256) for _ in range(ul))
         if rng.random() < 0.2 and ul >= 30:
             hdr = b"For this file that is: 7 bytes. This is a byteseries 9 file," + hdr[60:]
@@ -944,6 +961,28 @@ def gen_C17(rng, tier):
 
 def gen_C18(rng, tier):
     out = []
+    # directed: the damaged section is longer than a read buffer, so skipping has to
+    # survive a refill (and a second one in the thorough tier)
+    for p in ([4, 1] if tier == "quick" else [4, 0, 1, 2, 3, 8, 16]):
+        ls = p + 2
+        for nbuf in ([1] if tier == "quick" else [1, 2]):
+            h = Hist(p)
+            h.new()
+            h.pushrun(10, 3, 20, 1)
+            h.pushrun(h.last() + 100000, 1, nbuf * (16384 // ls) + 300, 2)      # section B
+            h.pushrun(h.last() + 100000, 5, 30, 3)                              # section C
+            if not marker_free(p, h.ts):
+                continue
+            H = header_len(p, 0)
+            h.op("close")
+            h.op("save 0")
+            for cb in ["T", "none"]:
+                h.op("restore 0")
+                h.op(f"damage data {H + h.sections[1][1] + h.ls} 0000")
+                h.open(cb=cb)
+                h.op("read_all s=U e=U")
+                h.op("close")
+            out.append((f"long-damaged-p{p}-{nbuf}", h.script()))
     for i in range(14 if tier == "quick" else 120):
         p = PAYLOADS_SMALL[i % len(PAYLOADS_SMALL)]
         h = Hist(p)
